@@ -19,6 +19,9 @@ type FindCase struct {
 	Stop   int      `json:"stop"`           // level index, or -1 = the unrelated directory
 	Gone   bool     `json:"gone,omitempty"` // the start directory does not exist
 	CLI    bool     `json:"cli"`            // also run `spok --show` with cwd=start, HOME=stop
+	// HomeLink: the CLI run reaches the chain through a symbolic link (homelink -> home): HOME and $PWD are the
+	// logical paths through the link, as a login shell would provide them, and a decoy spokfile sits above the real home
+	HomeLink bool `json:"home_link,omitempty"`
 }
 
 // FLevel says what one directory of the chain holds besides the next level.
@@ -69,6 +72,7 @@ func (findScen) Gen(r *Rng, cfg GenConfig) any {
 		c.Stop = r.Intn(depth + 1)
 	}
 	c.Gone = r.Chance(1, 25)
+	c.HomeLink = c.CLI && !c.Gone && c.Stop >= 0 && c.Stop <= c.Start && r.Chance(1, 4)
 	return c
 }
 
@@ -239,7 +243,24 @@ func (findScen) Exec(w *World, cc any, prop string) *Result {
 		f.Budgets = map[string]int{"find.readdir": budget}
 		env := w.BaseEnv()
 		env["HOME"] = stop
-		obs := w.Invoke(Invocation{Args: []string{"--show"}, Cwd: start, Env: env, Sched: Sched{Policy: "fifo"}, Faults: f})
+		cliStart := start
+		if c.HomeLink {
+			// w.Root/homelink -> home ; a decoy spokfile above the real $HOME (in w.Root) that must never be found
+			link := filepath.Join(w.Root, "homelink")
+			os.Remove(link)
+			must(os.Symlink("home", link))
+			writeFile(filepath.Join(w.Root, "spokfile"), "# decoy above home\ntask decoy() {\n    echo decoy\n}\n")
+			logical := func(p string) string { return link + strings.TrimPrefix(p, w.Home) }
+			env["HOME"] = logical(stop)
+			env["PWD"] = logical(start)
+			cliStart = logical(start)
+			res.count("fault_present:home_through_symlink")
+		}
+		obs := w.Invoke(Invocation{Args: []string{"--show"}, Cwd: cliStart, Env: env, Sched: Sched{Policy: "fifo"}, Faults: f})
+		if c.HomeLink {
+			os.Remove(filepath.Join(w.Root, "spokfile"))
+			os.Remove(filepath.Join(w.Root, "homelink"))
+		}
 		res.Ops++
 		got := ""
 		var err error
@@ -251,6 +272,10 @@ func (findScen) Exec(w *World, cc any, prop string) *Result {
 				line = line[:j]
 			}
 			got = strings.TrimSuffix(strings.TrimSpace(line), ":")
+			if c.HomeLink {
+				// the same file may be named through the link or by its physical path
+				got = strings.Replace(got, filepath.Join(w.Root, "homelink"), w.Home, 1)
+			}
 		}
 		if obs.Out.Panic != "" || obs.Out.Deadlock {
 			res.Abandoned = "C18: --show ended abnormally"
@@ -310,6 +335,9 @@ func (findScen) Shrinks(cc any) []any {
 	}
 	if c.Gone {
 		add(func(n *FindCase) { n.Gone = false })
+	}
+	if c.HomeLink {
+		add(func(n *FindCase) { n.HomeLink = false })
 	}
 	return out
 }
